@@ -36,7 +36,7 @@ def mesh_key(m):
     return (m["base"], m["kind"], json.dumps(m["verts"]), json.dumps(m["faces"]))
 
 
-def plan_jobs(sts, observers, c):
+def plan_jobs(sts, observers, c, histories):
     """The list of jobs for the workers and the kappa specification.  Kappa index 0 = id, then the random kappas of the
     tier, then one kappa per decade 1e-9 .. 1e9."""
     kspec = [("id",)] + list(c["kappas"]) + [("decade", d, f"c16dec{d}") for d in DECADES]
@@ -150,6 +150,21 @@ def plan_jobs(sts, observers, c):
                 add("call2", x, y, sh, ki, pp[:2], f"{a}+{b}:{lab}:two")
                 for p in pp:
                     add("call2", x, y, sh, ki, [p], f"{a}+{b}:{lab}:one")
+    # (g) object histories "use, then normalise, then use" (enumerated by TLC: MC_Mesh!LifeHistories) on objects built without
+    #     normalisation from variants with flipped faces
+    flipped = {}
+    for s in uniq:
+        if s["kind"] == "closed" and s["op"] == "flip" and (s["fam"] == "std" or max(s["stretch"]) >= 400):
+            flipped.setdefault((s["fam"], drv.bkey(s)), []).append(s)
+    for key in sorted(flipped):
+        cand = flipped[key]
+        picks = [cand[0], cand[len(cand) // 2], cand[-1]] if key[0] == "std" else [cand[len(cand) // 2]]
+        heavy = len(picks[0]["faces"]) > 12
+        for v in picks[:1] if heavy else picks:
+            for hi, h in enumerate(histories):
+                if heavy and hi % 8:
+                    continue
+                add("life", v, 0 if hi % 2 == 0 else k_rand[hi % nk], h)
     # (f) what the modes "warn" and "raise" report
     for (b, k), s in first_of.items():
         for mode in ("warn", "raise"):
@@ -205,6 +220,8 @@ def where_of(ev, clause, ctx):
         elif clause in ("field_variant_mismatch", "field_scale_mismatch"):
             w["region"] = ctx[0]
             w["field"] = ctx[1]
+    elif ev["type"] == "life":
+        w.update({"base": ev["base"], "aspect": max(ev.get("stretch", [1])), "view": ctx[1] if len(ctx) > 1 else ""})
     elif ev["type"] == "call2":
         if clause == "batch_mismatch":
             w.update({"nobs": ctx[0], "field": ctx[1], "rows": ctx[2]})
@@ -236,7 +253,11 @@ def run():
         kk = f"{s['base']}:{s['kind']}" if s["fam"] == "std" else f"flat 1:{max(s['stretch'])} {s['base']}:{s['kind']}"
         kinds[kk] = kinds.get(kk, 0) + 1
     rep.set("mc_states_by_base_kind", kinds)
-    kspec, bases, jobs = plan_jobs(sts, observers, c)
+    histories = drv.histories_from_output(res["out"])
+    if not histories:
+        raise MachineryError("MC_Mesh printed no object histories")
+    rep.set("object_histories", len(histories))
+    kspec, bases, jobs = plan_jobs(sts, observers, c, histories)
     missing = [s["base"] for s in bases.values() if s["base"] not in observers]
     if missing or not bases:
         raise MachineryError(f"no observers printed by MC_Mesh for {missing}")
@@ -295,6 +316,7 @@ def run():
                "demanded only for pairs of lattice boxes whose interpenetration the interval predicate proves")
     rep.assume("flat bodies: tetrahedron, prism, octahedron, hexagonal prism stretched by diag(k,k,1), diag(k,1,k), diag(1,k,k), k up to 10^4; their ground truth is "
                "evaluated on the mesh with the stretch divided out exactly (invariance under the stretch model-checked for k <= 10)")
+    rep.assume("object histories: built with reorient_faces='skip', at most LifeMaxPre uses/checks in any order, reorient_faces(), then use; a use = getB + getH + obj.mesh")
     rep.assume("all variants of the tetrahedron are enumerated; larger meshes: TLC palette of permutations, single/double flips, seeded random variants; "
                "cyclic rewinding of tetrahedron faces only through random variants of the larger meshes (TetraRewind = FALSE)")
     rep.assume("field law compared at the %d..%d observers per body declared in Mesh.tla (classified exactly by MC_Mesh), tolerance 1e-8 of gross scale" %
@@ -316,6 +338,14 @@ def replay(path):
         if ev["field"]["has"]:
             B, H = drv.fields(m, kap, ev["field"]["obs"])
             print("B at observers (lattice frame):", B.tolist())
+    elif ev["type"] == "life":
+        msh = {"verts": ev["verts_in"], "faces": ev["faces_in"], "kind": ev["kind"], "base": ev["base"], "stretch": ev["stretch"]}
+        ref = {"verts": [list(v) for v in ev["verts_in"]], "faces": ev["faces_in"], "kind": "closed", "base": ev["base"], "stretch": ev["stretch"]}
+        d = drv.Driver({drv.bkey(msh): ref}, {ev["base"]: {"pts": [[p[k] // ev["stretch"][k] for k in range(3)] for p in ev["obs"]]}},
+                       [(kap, {"unit": ev["unit"], "decade": ev["decade"], "kap": ev["kap"]})])
+        e2 = d.life_event(ev["tid"], msh, 0, ev["hist"])
+        for s0, s1 in zip(ev["steps"], e2["steps"]):
+            print(s1["op"], "faces", s1["faces"], "mesh array", s1["faces_mesh"], "(logged mesh array", s0["faces_mesh"], ")")
     elif ev["type"] == "call2":
         d = drv.Driver({}, {}, [(kap, {"unit": ev["unit"], "decade": ev["decade"], "kap": ev["kap"]})])
         e2 = d.call2(ev["tid"], {**ev["A"], "kind": "closed"}, {**ev["B"], "kind": "closed"}, ev["shift"], 0, ev["obs"], ev["label"])
